@@ -24,6 +24,7 @@ pub fn def() -> CheckDef {
         cpu_limit_s: 30,
         fault_kinds: "F-CK clock jumps / skew (set_clock ops)",
         count_subruns: false,
+        expect_probes: &["dir_sectors>=2"],
     }
 }
 
